@@ -91,6 +91,48 @@ func c07Default(c *cx) {
 		"!local:rw<*xmpp.responseChecker>.wroteResp",
 		"eq(" + hn + ",nil)",
 	})
+	// the converse: once an unanswered get/set IQ is established, every way
+	// out that is not an error return writes the reply (a path that gives up
+	// on the addressee and carries on leaves the request unanswered)
+	for _, ce := range g.EdgesMatching("!local:rw<*xmpp.responseChecker>.wroteResp") {
+		isIQEdge := false
+		for _, a := range ce.Atoms {
+			if eng.Glob("xmpp.isIQ(*start*.Name)", a.S) {
+				isIQEdge = true
+			}
+		}
+		if !isIQEdge {
+			continue
+		}
+		from := g.EdgeTarget(ce.E)
+		isReply := func(q eng.Point, nd ast.Node) bool { return containsNode(nd, cp) }
+		bad := ""
+		for _, rs := range returnsFrom(f, from, nil) {
+			if g.RetKindOf(rs) == eng.RetError {
+				continue
+			}
+			rp, _ := g.Where(rs)
+			if g.Reachable(from, rp, nil, isReply) {
+				bad = "return at " + c.p.Pos(rs.Pos()) + " is reachable from the unanswered-request edge without the default reply and is not an error return"
+			}
+		}
+		c.r.Check(id, f, "unanswered get/set always answered or the stream fails", "S: from the edge that establishes an unanswered get/set IQ every non-error exit passes the default reply", g.Blocks[ce.E.B].Nodes[len(g.Blocks[ce.E.B].Nodes)-1].Pos(), bad == "", bad)
+	}
+	// what counts as an IQ: the element name iq in one of the two stanza namespaces
+	for name, want := range map[string]string{
+		"isIQ":           `and(eq(p0.Local,"iq") & or(eq(p0.Space,stanza.NSClient) | eq(p0.Space,stanza.NSServer)))`,
+		"isIQEmptySpace": `and(eq(p0.Local,"iq") & or(eq(p0.Space,"") | eq(p0.Space,stanza.NSClient) | eq(p0.Space,stanza.NSServer)))`,
+	} {
+		if tf := c.fn(id, "", name); tf != nil {
+			got := ""
+			for _, rs := range tf.Graph().Returns {
+				if len(rs.Results) == 1 {
+					got = tf.Graph().Formula(rs.Results[0], true, tf.Graph().Entry()).String()
+				}
+			}
+			c.r.Check(id, tf, "name table", "T: "+name+" is exactly the element name iq in the stanza namespaces (other elements never trigger the automatic reply)", tf.Pos(), got == want, "table is "+got)
+		}
+	}
 	// literal of the reply
 	var iq *ast.CompositeLit
 	var se *ast.CompositeLit
@@ -156,6 +198,9 @@ func c07Default(c *cx) {
 			}
 		}
 		c.r.Check("C07.5", f, "handler error edge", "O: a handler error ends the stream with an error and no automatic reply", hc.Pos(), bad == "", bad)
+		// io.EOF is how the END OF THE INPUT STREAM is reported to Serve (which
+		// then returns nil): a handler's io.EOF must not be handed up as it is
+		c.r.Check("C07.5", f, "handler io.EOF is not taken for the end of the stream", "K: on the handler-error edge an io.EOF is tested for (and replaced) before the error is returned", hc.Pos(), len(g.EdgesMatching("eq("+hn+",var:io.EOF)")) > 0, "a handler that returns io.EOF (e.g. the mux for an empty get/set IQ) makes Serve return nil without a reply or a stream error")
 	}
 	// the reply is flushed on the success path
 	n := 0
@@ -190,10 +235,25 @@ func c07Detector(c *cx) {
 			"lt(recv.level,1)",
 			"xmpp.isIQEmptySpace(*.Name)",
 			"eq(recv.id,xmpp.getIDTyp(*.Attr)#2)",
-			"!eq(xmpp.getIDTyp(*.Attr)#3,\"get\")",
-			"!eq(xmpp.getIDTyp(*.Attr)#3,\"set\")",
 			"istype(*;encoding/xml.StartElement)",
 		})
+		// "a non-reply type does not count as the reply": the element counts
+		// only if its type IS result or error (not merely "not get/set": an iq
+		// without a type, or with a made-up one, is not a reply)
+		c.dom(id, f, w.Stmt, "wroteResp = true [reply type]", []string{
+			"or(eq(xmpp.getIDTyp(*.Attr)#3,\"error\") | eq(xmpp.getIDTyp(*.Attr)#3,\"result\"))"})
+	}
+	// id and type are read from the stanza's own (unqualified) attributes
+	if gi := c.fn(id, "", "getIDTyp"); gi != nil {
+		na := 0
+		for _, w := range gi.Writes() {
+			if w.RHS == nil || !strings.HasSuffix(gi.Norm(w.RHS, nil), ".Value") {
+				continue
+			}
+			na++
+			c.domAny(id, gi, w.Stmt, "attribute value taken [unqualified attribute]", []string{"eq(rangeval(p0).Name.Space,\"\")"})
+		}
+		c.r.Floor(id, "attribute reads of getIDTyp", na, 2)
 	}
 	c.r.Floor(id, "wroteResp = true", n, 1)
 	// who else writes wroteResp
